@@ -59,6 +59,9 @@ def calls(node, fname):
     return out
 
 
+_CMP = {ast.Eq: "=", ast.NotEq: "≠", ast.Lt: "<", ast.LtE: "≤", ast.Gt: ">", ast.GtE: "≥"}
+
+
 def lean(e, env):
     """scalar python expression -> Lean Int expression; env maps unparsed leaves to Lean vars"""
     u = ast.unparse(e)
@@ -80,6 +83,10 @@ def lean(e, env):
             return f"(Int.fdiv {a} {b})"
         if isinstance(e.op, ast.Mod):
             return f"(Int.fmod {a} {b})"
+    if isinstance(e, ast.IfExp) and isinstance(e.test, ast.Compare) and len(e.test.ops) == 1 \
+            and type(e.test.ops[0]) in _CMP:
+        c = f"({lean(e.test.left, env)} {_CMP[type(e.test.ops[0])]} {lean(e.test.comparators[0], env)})"
+        return f"(if {c} then {lean(e.body, env)} else {lean(e.orelse, env)})"
     if isinstance(e, ast.Compare) and len(e.ops) == 1 and isinstance(e.ops[0], ast.Eq):
         # a Python bool used as a number (int(a == b), or arithmetic on it): 1 if equal else 0
         return f"(if {lean(e.left, env)} = {lean(e.comparators[0], env)} then (1 : Int) else (0 : Int))"
@@ -93,6 +100,13 @@ def lean(e, env):
             # ceil(a / b) for b > 0  ==  -((-a) fdiv b)   (all signs of a)
             a, b = lean(e.args[0].left, env), lean(e.args[0].right, env)
             return f"(-(Int.fdiv (-{a}) {b}))"
+        if fn == "floor" and len(e.args) == 1 and isinstance(e.args[0], ast.BinOp) \
+                and isinstance(e.args[0].op, ast.Mult):
+            # floor(x * p) with p a SYMBOLIC rational pn / pd (pd > 0)  ==  (x * pn) fdiv pd
+            for x, p_ in ((e.args[0].left, e.args[0].right), (e.args[0].right, e.args[0].left)):
+                r = env.get("RAT:" + ast.unparse(p_))
+                if r:
+                    return f"(Int.fdiv ({lean(x, env)} * {r[0]}) {r[1]})"
         if fn == "int" and len(e.args) == 1:
             return lean(e.args[0], env)
         if fn == "len" and len(e.args) == 1:
@@ -404,6 +418,37 @@ TABLE += [
      "explain", or_default("batch_size"), {"inputs": "n", "self.nb_samples": "nb"}, "(n * nb)"),
     ("igDefaultBs", "n", "attributions/integrated_gradients.py", "IntegratedGradients",
      "explain", or_default("batch_size"), {"inputs": "n"}, "n"),
+]
+
+
+# ---- C14 CausalFidelity (p = pn / pd kept symbolic) ---------------------------------------------
+def if_assign(target):
+    """`if <test>: target = value` (no else)  ->  the expression `value if <test> else target`"""
+    def finder(fn):
+        for n in ast.walk(fn):
+            if isinstance(n, ast.If) and not n.orelse and len(n.body) == 1 and isinstance(n.body[0], ast.Assign) \
+                    and len(n.body[0].targets) == 1 and ast.unparse(n.body[0].targets[0]) == target:
+                e = ast.IfExp(test=n.test, body=n.body[0].value, orelse=ast.Name(id=target, ctx=ast.Load()))
+                return ast.copy_location(e, n)
+        raise Untranslatable(f"`if ...: {target} = ...` not found in {fn.name}")
+    return finder
+
+
+# one env per row: only the row's own parameters may occur (anything else is untranslatable)
+CAUSAL_M_ENV = {"self.nb_features": "nf", "RAT:max_percentage_perturbed": ("pn", "pd")}
+CAUSAL_S_ENV = {"steps": "steps", "self.max_nb_perturbed": "maxnb"}
+CAUSAL_L_ENV = {"self.steps": "steps", "self.max_nb_perturbed": "maxnb"}
+TABLE += [
+    ("causalMaxNb", "nf pn pd", "metrics/fidelity.py", "CausalFidelity", "__init__",
+     assign_value("self.max_nb_perturbed"), CAUSAL_M_ENV, "(Int.fdiv (nf * pn) pd)"),
+    ("causalSteps", "steps maxnb", "metrics/fidelity.py", "CausalFidelity", "__init__",
+     if_assign("steps"), CAUSAL_S_ENV, "(if (steps = (-(1 : Int))) then maxnb else steps)"),
+    ("causalLinStart", "maxnb steps", "metrics/fidelity.py", "CausalFidelity", "detailed_evaluate",
+     kwarg_of_call("linspace", 0, 0), CAUSAL_L_ENV, "(0 : Int)"),
+    ("causalLinStop", "maxnb steps", "metrics/fidelity.py", "CausalFidelity", "detailed_evaluate",
+     kwarg_of_call("linspace", 0, 1), CAUSAL_L_ENV, "maxnb"),
+    ("causalLinNum", "maxnb steps", "metrics/fidelity.py", "CausalFidelity", "detailed_evaluate",
+     kwarg_of_call("linspace", 0, 2), CAUSAL_L_ENV, "(steps + (1 : Int))"),
 ]
 
 
